@@ -235,6 +235,10 @@ def build_mdp14(case, m=None, lab=None):
             is_absorbing=lambda s: absorbing[s],
             discount_rate=gamma)
         mdp._c14_trans, mdp._c14_rew, mdp._c14_actions, mdp._c14_absorbing, mdp._c14_init = trans, rew, actions, absorbing, init
+    if m is not case["mdp"] and opts.get("repr") != "matrices":
+        # second MDP of a case (absorbing flags may differ from the generator's self-looping absorbing states): explicit lists,
+        # so that the cached matrix views do not depend on reachability analysis
+        mdp._state_list, mdp._action_list = tuple(lab.S), tuple(lab.A)
     if opts.get("touch"):
         # the object has been USED before the roll-out: cached views are filled
         mdp.state_list, mdp.action_list, mdp.transition_matrix, mdp.reward_matrix
